@@ -26,8 +26,9 @@
      jobs_ok, Inv, fstep, fhist   the create_entry jobs of a step; "b is the writer's archive of writable entries and
                             abstracts to a"; one command on a file; a history of commands
      xlogical / logical / abs     (AppendContainerFacts) the decoded view of a file and its abstraction to Update.archive
-   Premises on primitives: the C01 cipher / compressor laws, and compress_small (C14: the compressor hands on pieces
-   below 2^32 bytes — needed for the rebuilt block to be writable).
+   Premises on primitives: the C01 cipher / compressor laws.  (compress_small — the compressor hands on pieces below
+   2^32 bytes — was needed for the rebuilt block to be writable until the chunk sinks were modelled for writes of every
+   length: Props/C14_sink.v; it is gone from every theorem here.)
    Outside: the temp file + rename (C12), symbolic links / ctime filters (outside Model/Update.v), multipart input
    of update / delete (read_parts; the theorems are stated on one file), acl / xattr editing commands. *)
 From PNA Require Import Base Crc32 Name Codec Chunk Archive Entry Flatten Cbc Ctr Pipeline Aes Camellia
@@ -120,7 +121,6 @@ Theorem C11_rw_logical :
    decompress c (concat (compress c lvl ws)) = Ok (concat ws)) ->
   (forall (c : compression) (lvl : N) (ws ws' : list bytes),
    concat ws = concat ws' -> concat (compress c lvl ws) = concat (compress c lvl ws')) ->
-  compress_small compress ->
   forall (lvl : N) (ctx : cctx),
   strict_ctx ctx ->
   forall pw : bytes,
@@ -150,7 +150,6 @@ Check C11_rw_logical :
    decompress c (concat (compress c lvl ws)) = Ok (concat ws)) ->
   (forall (c : compression) (lvl : N) (ws ws' : list bytes),
    concat ws = concat ws' -> concat (compress c lvl ws) = concat (compress c lvl ws')) ->
-  compress_small compress ->
   forall (lvl : N) (ctx : cctx),
   strict_ctx ctx ->
   forall pw : bytes,
@@ -183,7 +182,6 @@ Theorem C11_delete_solid_logical :
    decompress c (concat (compress c lvl ws)) = Ok (concat ws)) ->
   (forall (c : compression) (lvl : N) (ws ws' : list bytes),
    concat ws = concat ws' -> concat (compress c lvl ws) = concat (compress c lvl ws')) ->
-  compress_small compress ->
   forall (lvl : N) (ctx : cctx),
   strict_ctx ctx ->
   forall pw : bytes,
@@ -215,7 +213,6 @@ Check C11_delete_solid_logical :
    decompress c (concat (compress c lvl ws)) = Ok (concat ws)) ->
   (forall (c : compression) (lvl : N) (ws ws' : list bytes),
    concat ws = concat ws' -> concat (compress c lvl ws) = concat (compress c lvl ws')) ->
-  compress_small compress ->
   forall (lvl : N) (ctx : cctx),
   strict_ctx ctx ->
   forall pw : bytes,
@@ -249,7 +246,6 @@ Theorem C11_delete_solid_abs :
    decompress c (concat (compress c lvl ws)) = Ok (concat ws)) ->
   (forall (c : compression) (lvl : N) (ws ws' : list bytes),
    concat ws = concat ws' -> concat (compress c lvl ws) = concat (compress c lvl ws')) ->
-  compress_small compress ->
   forall (lvl : N) (ctx : cctx),
   strict_ctx ctx ->
   forall pw : bytes,
@@ -281,7 +277,6 @@ Check C11_delete_solid_abs :
    decompress c (concat (compress c lvl ws)) = Ok (concat ws)) ->
   (forall (c : compression) (lvl : N) (ws ws' : list bytes),
    concat ws = concat ws' -> concat (compress c lvl ws) = concat (compress c lvl ws')) ->
-  compress_small compress ->
   forall (lvl : N) (ctx : cctx),
   strict_ctx ctx ->
   forall pw : bytes,
@@ -315,7 +310,6 @@ Theorem C11_update_container :
    decompress c (concat (compress c lvl ws)) = Ok (concat ws)) ->
   (forall (c : compression) (lvl : N) (ws ws' : list bytes),
    concat ws = concat ws' -> concat (compress c lvl ws) = concat (compress c lvl ws')) ->
-  compress_small compress ->
   forall (lvl : N) (ctx : cctx),
   strict_ctx ctx ->
   forall pw : bytes,
@@ -357,7 +351,6 @@ Check C11_update_container :
    decompress c (concat (compress c lvl ws)) = Ok (concat ws)) ->
   (forall (c : compression) (lvl : N) (ws ws' : list bytes),
    concat ws = concat ws' -> concat (compress c lvl ws) = concat (compress c lvl ws')) ->
-  compress_small compress ->
   forall (lvl : N) (ctx : cctx),
   strict_ctx ctx ->
   forall pw : bytes,
@@ -401,7 +394,6 @@ Theorem C11_update_container_props :
    decompress c (concat (compress c lvl ws)) = Ok (concat ws)) ->
   (forall (c : compression) (lvl : N) (ws ws' : list bytes),
    concat ws = concat ws' -> concat (compress c lvl ws) = concat (compress c lvl ws')) ->
-  compress_small compress ->
   forall (lvl : N) (ctx : cctx),
   strict_ctx ctx ->
   forall pw : bytes,
@@ -455,7 +447,6 @@ Check C11_update_container_props :
    decompress c (concat (compress c lvl ws)) = Ok (concat ws)) ->
   (forall (c : compression) (lvl : N) (ws ws' : list bytes),
    concat ws = concat ws' -> concat (compress c lvl ws) = concat (compress c lvl ws')) ->
-  compress_small compress ->
   forall (lvl : N) (ctx : cctx),
   strict_ctx ctx ->
   forall pw : bytes,
@@ -537,7 +528,6 @@ Theorem C11_file_step :
    decompress c (concat (compress c lvl ws)) = Ok (concat ws)) ->
   (forall (c : compression) (lvl : N) (ws ws' : list bytes),
    concat ws = concat ws' -> concat (compress c lvl ws) = concat (compress c lvl ws')) ->
-  compress_small compress ->
   forall (lvl : N) (ctx : cctx),
   strict_ctx ctx ->
   forall pw : bytes,
@@ -560,7 +550,6 @@ Check C11_file_step :
    decompress c (concat (compress c lvl ws)) = Ok (concat ws)) ->
   (forall (c : compression) (lvl : N) (ws ws' : list bytes),
    concat ws = concat ws' -> concat (compress c lvl ws) = concat (compress c lvl ws')) ->
-  compress_small compress ->
   forall (lvl : N) (ctx : cctx),
   strict_ctx ctx ->
   forall pw : bytes,
@@ -587,7 +576,6 @@ Theorem C11_file_history :
    decompress c (concat (compress c lvl ws)) = Ok (concat ws)) ->
   (forall (c : compression) (lvl : N) (ws ws' : list bytes),
    concat ws = concat ws' -> concat (compress c lvl ws) = concat (compress c lvl ws')) ->
-  compress_small compress ->
   forall (lvl : N) (ctx : cctx),
   strict_ctx ctx ->
   forall pw : bytes,
@@ -614,7 +602,6 @@ Check C11_file_history :
    decompress c (concat (compress c lvl ws)) = Ok (concat ws)) ->
   (forall (c : compression) (lvl : N) (ws ws' : list bytes),
    concat ws = concat ws' -> concat (compress c lvl ws) = concat (compress c lvl ws')) ->
-  compress_small compress ->
   forall (lvl : N) (ctx : cctx),
   strict_ctx ctx ->
   forall pw : bytes,
